@@ -34,6 +34,10 @@ RULE = ("(a) upstream.VerifMsgTruncated on all 256 values of byte 2 at lengths 3
         "(f) after 0-2 ordinary exchanges, a query whose first 1-2 datagrams the UDP server ignores; it answers the transport's "
         "re-send (1 s later each) under the id that datagram carries, flag byte random with TC set or clear, caller ids 4..65535 "
         "(oracle: same outcome as for an answered first datagram; observed ids/checksums of all datagrams equal the first). "
+        "(g) as (e) for k = 1..6 but the server closes the k idle connections WHILE idle and the driver waits until the upstream "
+        "reported k close events (oracle: for any k the caller gets the TCP reply from one new connection). "
+        "Errors are classed: ORefused = ECONNREFUSED reported in less than half of the exchange deadline, OErr = anything else "
+        "(caller's deadline, EOF, read error, late refusal); a refusing TCP port must give ORefused. "
         "Every exchange the driver starts has a deadline (6 s, 400 ms once three exchanges have run into it), so a lost reply is "
         "an observed error, never a hang. "
         "A case is non-trivial when TC is set or the flag byte is not 0x80/0x81, or it has stray datagrams / a silent UDP "
@@ -65,7 +69,8 @@ LEVEL_TEXT = ("Theorems in coq/Properties/C17.v: for every header and body msgTr
               "late replies no retry receives another query's reply (c17_no_crossed_replies); with k <= maxRetry + 1 idle connections that die "
               "mid-exchange the retry loop (Model/Retry.v loop reuse_cfg, shape and constant regenerated from reuse.go) still reaches a fresh "
               "connection and the caller gets the TCP reply (c17_stale_conns_then_fresh, c17_fallback_over_stale_conns); every datagram of an exchange, first or re-sent, is the same bytes "
-              "under the same wire id, so an answer to any of them is taken (c17_resend_same_datagram, c17_answer_to_any_send_accepted). The model is run inside Coq on every case the Go driver observed on the "
+              "under the same wire id, so an answer to any of them is taken (c17_resend_same_datagram, c17_answer_to_any_send_accepted); idle connections the client saw die are in no pool, so any number of "
+              "them still ends in the TCP reply from a fresh connection (c17_dead_idle_conns_are_harmless). The model is run inside Coq on every case the Go driver observed on the "
               "real code (Judge.C17.agree) and the property's own reading of the observation is checked (Judge.C17.spec).")
 LEVEL_NOTE = ("Trusted: Coq kernel + vm_compute; hand-written model tied to the code by the differential run and Gen/Constants.v; "
               "loopback ordering; miekg Pack as reference bit layout. Sequential use of one upstream only. No axioms.")
